@@ -75,23 +75,36 @@ func (k Keeper) GetRoutingRules(ctx sdk.Context) ([]string, bool) {
 	return rules, true
 }
 
-// Authenticate judges whether the packet compliance with white list
+// Authenticate checks whether the routing rules allow (sourceChain, destinationChain, port):
+// some stored rule must match field by field, where a "*" field matches any value and
+// any other field matches only the identical string.
 func (k Keeper) Authenticate(ctx sdk.Context, sourceChain, destinationChain, port string) bool {
 	rules, found := k.GetRoutingRules(ctx)
 	if !found {
 		return false
 	}
-	flag := false
 	for _, rule := range rules {
-		flag, _ = regexp.MatchString(
-			ConvWildcardToRegular(rule),
-			sourceChain+","+destinationChain+","+port,
-		)
-		if flag {
-			break
+		if matchRule(rule, sourceChain, destinationChain, port) {
+			return true
 		}
 	}
-	return flag
+	return false
+}
+
+// matchRule matches one "source,dest,port" rule against a triple field by field.
+// The identifier alphabet contains regular-expression operators ('+', '[', ']', ...),
+// so the fields are compared literally rather than through a regular expression.
+func matchRule(rule string, values ...string) bool {
+	fields := strings.Split(rule, ",")
+	if len(fields) != len(values) {
+		return false
+	}
+	for i, field := range fields {
+		if field != "*" && field != values[i] {
+			return false
+		}
+	}
+	return true
 }
 
 // ConvWildcardToRegular convert wildcard to regular
